@@ -61,6 +61,10 @@ def ensure_built() -> str:
     d = os.path.join(TABLE_ROOT, hs)
     marker = os.path.join(d, "COMPLETE")
     if os.path.exists(marker):
+        try:
+            os.utime(marker)          # mark as recently used
+        except OSError:
+            pass
         return d
     os.makedirs(TABLE_ROOT, exist_ok=True)
     with open(os.path.join(TABLE_ROOT, ".lock"), "w") as lk:
@@ -83,11 +87,16 @@ def ensure_built() -> str:
             raise HarnessError("parser table build failed:\n" + r.stdout[-2000:] + r.stderr[-4000:])
         with open(marker, "w") as f:
             f.write(hs)
-        # prune older table dirs
+        # prune table dirs that have not been used for a while (never a fresh one: a concurrent
+        # run against another tree - VERIF_REPO - may be using it)
+        now = time.time()
         for old in os.listdir(TABLE_ROOT):
             p = os.path.join(TABLE_ROOT, old)
-            if os.path.isdir(p) and old != hs:
-                shutil.rmtree(p, ignore_errors=True)
+            try:
+                if os.path.isdir(p) and old != hs and now - os.path.getmtime(os.path.join(p, "COMPLETE")) > 6 * 3600:
+                    shutil.rmtree(p, ignore_errors=True)
+            except OSError:
+                pass
     return d
 
 
